@@ -15,6 +15,7 @@ import Driver.C10
 import Driver.C02
 import Driver.C04
 import Driver.C12
+import Driver.C19
 
 def main (args : List String) : IO UInt32 := do
   let stdin ← IO.getStdin
@@ -36,4 +37,5 @@ def main (args : List String) : IO UInt32 := do
   | ["c02"] => Driver.loop stdin stdout Driver.C02.step {}; return 0
   | ["c04"] => Driver.loop stdin stdout Driver.C04.step {}; return 0
   | ["c12"] => Driver.loop stdin stdout Driver.C12.step {}; return 0
+  | ["c19"] => Driver.loop stdin stdout Driver.C19.step {}; return 0
   | _ => IO.eprintln s!"unknown model {args}"; return 2
